@@ -165,6 +165,26 @@ def inplace_from_source(module=None):
     return found[0]
 
 
+def setitem_refreshes_from_source(module=None):
+    """does CPTensor.__setitem__ of the CURRENT source touch the cached shape (assign self.shape / self.rank, or call a validator)?
+    False for the plain attribute rebinding (the current tree: C03's known finding wrapper_setitem_stale_cache_cp) -> setitem_h;
+    True -> setitem_refresh_h; a __setitem__ that cannot be found is a broken tie."""
+    import ast, inspect, textwrap
+    if module is None:
+        import tensorly.cp_tensor as module
+    src = module if isinstance(module, str) else textwrap.dedent(inspect.getsource(module))
+    cls = [n for n in ast.walk(ast.parse(src)) if isinstance(n, ast.ClassDef) and n.name == "CPTensor"]
+    fn = [n for c in cls for n in c.body if isinstance(n, ast.FunctionDef) and n.name == "__setitem__"]
+    if len(fn) != 1:
+        raise BrokenTie("CPTensor.__setitem__ not found")
+    for n in ast.walk(fn[0]):
+        if isinstance(n, ast.Attribute) and isinstance(n.value, ast.Name) and n.value.id == "self" and n.attr in ("shape", "rank") and isinstance(n.ctx, ast.Store):
+            return True
+        if isinstance(n, ast.Call) and isinstance(n.func, ast.Name) and "validate" in n.func.id:
+            return True
+    return False
+
+
 PRED = {"cp_mode_dot_alias": pred_cp_mode_dot_alias, "svd_compress_rank": pred_compress_rank}
 ENTRY = {"cp_mode_dot_alias": "tensorly.cp_tensor.cp_mode_dot", "svd_compress_rank": "tensorly.preprocessing.svd_compress_tensor_slices"}
 CLASSIFIERS = {"inplace_product_into_shared_factor": clf_inplace_shared}
@@ -607,6 +627,8 @@ def run_round5(chk, rng, judge, mult, emit):
                 st, out = call(lambda: operand.normalize(inplace=(meth == 1)))
             self_res = st == "ok" and out is operand
             shared, same = observe(arrs, facs, ls, [out] if st == "ok" else [])
+            if meth == 2 and st == "ok":                              # inplace=False: the operand still holds its own list and weights
+                same = same and (operand.factors is facs) and (operand.weights is arrs[w_idx])
             wl = "None" if w_idx is None else f"(Some {w_idx}%nat)"
             emit(lambda: f"QHeapNorm {tape} {qmats1(before)} {C.nat_list(ls)} {wl} {C.boolc(cls_q)} {meth}%nat {qobj(st, out)} "
                          f"{qmats1(arrs)} [{'; '.join(C.boolc(b) for b in shared)}] {C.boolc(same)} {C.boolc(self_res)}",
@@ -625,6 +647,13 @@ def run_round5(chk, rng, judge, mult, emit):
                     chk.finding("tensorly.cp_tensor.CPTensor.normalize", dict(inpq, meth=meth), "normalize(inplace=False) changed the operand", "cp_normalize_heap")
         # item assignment on a CPTensor, then a mode product: the shape attribute is not refreshed (C03's known finding owns the defect;
         # here the model must follow the code: cached-shape test AND real row count)
+        try:
+            refresh = setitem_refreshes_from_source()
+        except BrokenTie as e_:
+            refresh = False
+            if not any("__setitem__" in str(b.get("what")) for b in chk.broken):
+                chk.broken.append({"what": "source tie broken: CPTensor.__setitem__ could not be read off the source (it selects the item-assignment variant of the heap model)", "detail": str(e_)})
+        chk.cov["cptensor_setitem"] = "refreshes the cached shape" if refresh else "plain attribute rebinding (cached shape kept)"
         if N >= 1:
             kind = rng.choice(["same", "rows", "rows", "fewer", "more"])
             newfs = [H.rint(rng, -3, 3, f.shape) for f in fs]
@@ -650,7 +679,7 @@ def run_round5(chk, rng, judge, mult, emit):
                 copy = True                                            # copy=False would update obj_ and spoil the second probe
                 st, out = call(cp_mode_dot, obj_, x.copy(), mode2, keep_dim=kd, copy=copy)
                 xl = f"(OpMat {zmat(x)})" if x.ndim == 2 else f"(OpVec {zrow(x)})"
-                emit(lambda: f"ZHeapStale {C.boolc(inplace)} {zmats(arrs)} {C.nat_list(list(range(1, N + 1)))} {C.nat_list(list(range(N + 1, N + 1 + len(newfs))))} 0%nat "
+                emit(lambda: f"ZHeapStale {C.boolc(inplace)} {C.boolc(refresh)} {zmats(arrs)} {C.nat_list(list(range(1, N + 1)))} {C.nat_list(list(range(N + 1, N + 1 + len(newfs))))} 0%nat "
                              f"{C.boolc(copy)} {xl} {mode2}%nat {C.boolc(kd)} {H.zobj_res(st, out)}", ("cp_mode_dot", "after-setitem", kind, mode2, kind2, d == rows_new, d == rows_old))
                 chk.count(key=("cp_mode_dot-setitem", kind, kind2, d == rows_new, d == rows_old), nontrivial=kind != "same")
                 chk.hist("setitem", kind + ":" + st)
